@@ -57,6 +57,12 @@ func (c *Ctx) Arg(key, def string) string {
 func oracleK(c *Ctx, id int, body, impl string) {
 	prop := c.Arg("prop", "")
 	k := parseKCall(body)
+	if strings.HasPrefix(impl, "frame ") {
+		// every property decided on single Run calls presupposes that the call leaves its inputs and parameters alone
+		c.Stats.OracleEvals++
+		c.OracleFail(id, k.Model+":frame", "the Run call modified its own inputs or parameters: "+impl, body)
+		return
+	}
 	f := kOracles[prop][k.Model]
 	if f == nil {
 		return
